@@ -2,6 +2,7 @@ import GoCrypt.Model.Codec
 import GoCrypt.Gen.Shapes
 import GoCrypt.Spec.Respell
 import GoCrypt.Spec.CodecDomain
+import GoCrypt.Proofs.CodecL2
 import GoCrypt.Driver.State
 
 /-! Line protocol for the codec model: shapes, marshal, unmarshal, type info. -/
@@ -168,7 +169,10 @@ def handleCodec : Handler
     match ti with
     | .error e => pure (st, showTagErr e)
     | .ok ti =>
-      let dom := if GoCrypt.CodecDomain.unambiguous ti && GoCrypt.CodecDomain.representable ti vals then "in" else "out"
+      -- the hypothesis of the general round-trip theorem C10General.roundtrip_L6 (minus the empty-last-text clause, which is
+      -- reported as known finding F12 through the class annotation below)
+      let dom := if GoCrypt.CodecDomain.unambiguous ti && GoCrypt.CodecDomain.representable ti vals &&
+                    GoCrypt.Codec.Layers.groupsSeparated ti.fields && GoCrypt.Codec.Layers.noSteal vals ti.fields then "in" else "out"
       match marshal ti vals with
       | .error _ => pure (st, "rt-merr")
       | .ok s =>
@@ -196,13 +200,25 @@ def handleCodec : Handler
       | .ok out =>
         let v := finalVals ti out
         match marshal ti v with
-        | .error _ => pure (st, "remarshal-failed")
+        | .error e =>
+          -- Unmarshal accepted `h`, but Marshal refuses the very value it returned (C20 / second half of C10). Name the
+          -- option combination responsible, so that the known classes can be told from anything new.
+          let fname := match e with | .unsupportedValue f _ => f | .unsupportedType f => f | _ => ""
+          let cls := match (ti.hashPrefix.toList ++ ti.fields).find? (fun f => f.name == fname) with
+            | some f =>
+              (match f.kind with
+               | .int _ | .uint _ => if f.opts.hasLength then "length-on-integer" else "other"
+               | .byteArray n => if f.opts.length ≠ n then "array-length-mismatch" else if f.opts.omitEmpty then "omitempty+array" else "other"
+               | _ => "other")
+            | none => "other"
+          pure (st, s!"remarshal-failed #class={cls}")
         | .ok c =>
           -- known finding 12: an empty text in the last emitted position cannot be read back
           let body : Bytes := (marshalFields v ti.fields none []).toOption.getD []
           let lastMember := (GoCrypt.RefParse.splitOn comma ((GoCrypt.RefParse.splitOn dollar body).getLast?.getD [])).getLast?.getD []
           let anyEmitted := (GoCrypt.Respell.pieces v ti.fields).map (fun ps => !ps.isEmpty) |>.getD false
-          let dom := if GoCrypt.CodecDomain.unambiguous ti && GoCrypt.CodecDomain.representable ti v then "in" else "out"
+          let dom := if GoCrypt.CodecDomain.unambiguous ti && GoCrypt.CodecDomain.representable ti v &&
+                        GoCrypt.Codec.Layers.groupsSeparated ti.fields && GoCrypt.Codec.Layers.noSteal v ti.fields then "in" else "out"
           let cls := s!" #dom={dom}" ++ (if anyEmitted && lastMember.isEmpty then " class=empty-last-field" else "")
           match unmarshal ti c with
           | .error _ => pure (st, "reject" ++ cls)
